@@ -109,6 +109,24 @@ def t1p_cases(sp, thorough):
     return out
 
 
+def t1q_cases(sp, thorough):
+    """Every named unit pair of one dimension with a prefix on the source or on the target
+    (thorough only; the quick tier keeps to the pools of T1p)."""
+    out = []
+    if not thorough:
+        return out
+    for dim, names in sorted(sp.groups.items()):
+        for a in names:
+            for b in names:
+                if a == b:
+                    continue
+                for p in ("kilo", "milli", "mebi"):
+                    out.append(((p, ((a, 1),)), (None, ((b, 1),))))
+                    out.append(((None, ((a, 1),)), (p, ((b, 1),))))
+                out.append((("micro", ((a, -1),)), ("kibi", ((b, -1),))))
+    return out
+
+
 def t2_cases(sp, thorough):
     keys = list(POOLS) if thorough else ["L", "T", "M", "V", "F", "E"]
     k = 4 if thorough else 3
@@ -200,7 +218,7 @@ def t4_cases(sp, thorough):
     return out
 
 
-TIERS = [("T1", t1_cases), ("T1p", t1p_cases), ("T2", t2_cases), ("T3", t3_cases), ("T4", t4_cases)]
+TIERS = [("T1", t1_cases), ("T1p", t1p_cases), ("T1q", t1q_cases), ("T2", t2_cases), ("T3", t3_cases), ("T4", t4_cases)]
 
 
 # ------------------------------------------------------------------ judging one case
@@ -509,6 +527,8 @@ def run(rep, tier):
                 seen.add(k)
                 uniq.append(c)
         cases = rotate(uniq)
+        if not cases:
+            continue
         res = pmap(_chunk, chunked(cases, 64))
         agg = {"pairs": len(cases), "evaluations": 0, "returned_pairs": 0, "outcomes": {}}
         for r in res:
